@@ -382,7 +382,9 @@ def o_to_pgl(A, bilinear_form=np.diag([-1, 1, 1])):
         conj = form_conj @ utils.invert(killing_conj)
         conj_i = killing_conj @ form_conj_i
 
-    A_d = conj_i @ A @ conj
+    # sl2_irrep orders the monomial basis as (e_2^2, e_1 e_2, e_1^2),
+    # so reverse it: after this A_d[0, 0] = a^2, A_d[2, 2] = d^2 etc.
+    A_d = (conj_i @ A @ conj)[::-1, ::-1]
 
     a = np.sqrt(np.abs(A_d[0, 0]))
     b = np.sqrt(np.abs(A_d[0, 2]))
